@@ -594,23 +594,23 @@ func runDelivery(c *Ctx, p *Prog, R *BusRoles, ruleOf func(construct string) str
 		}
 	}
 	for pos := range r.invSites {
-		dis("C05.R1", "dispatch-fn/invocation@"+siteKey(p, pos), "panic edge of this invocation is absorbed by a deferred recover of the same frame; no PanicEscapes reachable")
-		dis("C04.R2", "dispatch-fn/invocation@"+siteKey(p, pos), "invocation reachable on every path through the dispatch function for this handler kind")
+		dis("C05.R1", "dispatch-fn/invocation#"+siteOrd(r.invSites, pos), "panic edge of this invocation is absorbed by a deferred recover of the same frame; no PanicEscapes reachable")
+		dis("C04.R2", "dispatch-fn/invocation#"+siteOrd(r.invSites, pos), "invocation reachable on every path through the dispatch function for this handler kind")
 	}
 	for pos := range r.claimSites {
-		dis("C04.R1", "PublishContext/claim@"+siteKey(p, pos), "every dispatch of a once registration is control-dependent on the success edge of this atomic claim")
-		dis("C04.R3", "PublishContext/claim@"+siteKey(p, pos), "claim attempted only after filter pass and live context poll")
+		dis("C04.R1", "PublishContext/claim#"+siteOrd(r.claimSites, pos), "every dispatch of a once registration is control-dependent on the success edge of this atomic claim")
+		dis("C04.R3", "PublishContext/claim#"+siteOrd(r.claimSites, pos), "claim attempted only after filter pass and live context poll")
 	}
 	for pos := range r.pollSites {
-		dis("C08.R1", "context-poll@"+siteKey(p, pos), "non-blocking poll of the publish context whose done arm skips the invocation")
+		dis("C08.R1", "context-poll#"+siteOrd(r.pollSites, pos), "non-blocking poll of the publish context whose done arm skips the invocation")
 	}
 	for pos := range r.filterSites {
-		dis("C01.R4", "PublishContext/filter-call@"+siteKey(p, pos), "filter evaluated on the published event before dispatch")
+		dis("C01.R4", "PublishContext/filter-call#"+siteOrd(r.filterSites, pos), "filter evaluated on the published event before dispatch")
 	}
 	for pos := range r.dispatchSites {
-		dis("C01.R4", "PublishContext/dispatch@"+siteKey(p, pos), "at most one dispatch per registration per publish; skips only for filter/context/claim")
-		dis("C08.R1", "PublishContext/dispatch@"+siteKey(p, pos), "dispatch preceded by a live poll of the publish context in the same delivery")
-		dis("C04.R4", "PublishContext/dispatch@"+siteKey(p, pos), "claimed registrations are queued for retirement before the iteration ends")
+		dis("C01.R4", "PublishContext/dispatch#"+siteOrd(r.dispatchSites, pos), "at most one dispatch per registration per publish; skips only for filter/context/claim")
+		dis("C08.R1", "PublishContext/dispatch#"+siteOrd(r.dispatchSites, pos), "dispatch preceded by a live poll of the publish context in the same delivery")
+		dis("C04.R4", "PublishContext/dispatch#"+siteOrd(r.dispatchSites, pos), "claimed registrations are queued for retirement before the iteration ends")
 	}
 	if as, ok := want["C04.R4"]; ok {
 		c.Check(r.sawRegistryWriteAfterLoop, as, "PublishContext/retirement-region", "", "registry write-back after the dispatch loop present", "no registry write-back after the dispatch loop: claimed once handlers are never removed")
@@ -619,8 +619,16 @@ func runDelivery(c *Ctx, p *Prog, R *BusRoles, ruleOf func(construct string) str
 
 // siteKey names a site by enclosing function and ordinal of the position within it
 // (stable under unrelated edits elsewhere in the file; not a line number).
-func siteKey(p *Prog, pos token.Pos) string {
-	return p.Pos(pos)
+// siteOrd: the rank of pos among the sites of its kind (obligations are keyed by ordinal,
+// not by line, so that moving code does not rename them).
+func siteOrd(set map[token.Pos]bool, pos token.Pos) string {
+	n := 1
+	for q := range set {
+		if q < pos {
+			n++
+		}
+	}
+	return fmt.Sprintf("%d", n)
 }
 
 // lenTest: bo compares len(x) with 0; returns whether the true outcome means non-empty.
